@@ -16,7 +16,7 @@ func init() { families["dsn"] = dsnMain }
 
 type dsnEmb struct {
 	Opt  string `json:"opt" multiref:"option,o"`
-	Flag bool   `json:"flag"`
+	Flag bool   `json:"flag,string"`
 	Num  int    `json:"num" multiref:"n"`
 }
 
@@ -27,7 +27,7 @@ type dsnT struct {
 	dsnEmb
 	App     string `json:"app-name" multiref:"app"`
 	TLS     bool   `json:"tls"`
-	Timeout int    `json:"timeout"`
+	Timeout int    `json:"timeout,omitempty"` // a tag with options: the options are not names of the field
 	NoTag   string
 }
 
@@ -46,7 +46,7 @@ var dsnKind = map[string]string{"app-name": "s", "database": "s", "flag": "b", "
 	"password": "s", "port": "s", "timeout": "i", "tls": "b", "username": "s"}
 var dsnKeys = []string{"app-name", "app", "database", "db", "flag", "host", "hostname", "num", "n", "opt", "option", "o",
 	"password", "passwd", "pass", "port", "timeout", "tls", "username", "user"}
-var dsnUnknown = []string{"bogus", "Host", "NoTag", "hostt", "", "user name", "key"}
+var dsnUnknown = []string{"bogus", "Host", "NoTag", "hostt", "", "user name", "key", "omitempty", "string", "timeout,omitempty"}
 
 func dsnDump(t *dsnT) [][]string {
 	m := map[string]string{"app-name": t.App, "database": t.Database, "flag": strconv.FormatBool(t.Flag), "host": t.Host,
